@@ -34,7 +34,8 @@ def stream_cells(seed, thorough):
                              iochunk=(65536, 16, 1024, 4096, 65536, 16384)[r % 6] if not thorough or r % 6 != 1 else 256,
                              fin=("half", "app", "stop", "half")[r % 4], window=(1 << 20, 65536, 262144)[ci % 3],
                              hssends=(2, 1, 3, 0)[(ci + seed // 2) % 4], bytes=big, rbytes=big // 4,
-                             pauses=400 if thorough else 100, mwq=1024, fault="none", cell=ci)
+                             pauses=400 if thorough else 100, mwq=1024, fault="none", cell=ci,
+                             cbsend=(1, 0, 1, 1, 0, 1)[r % 6])
                     cells.append(c)
                     ci += 1
     # cells that make send() hit EAGAIN with an empty write queue (tiny payloads, pure kernel back-pressure)
@@ -42,7 +43,7 @@ def stream_cells(seed, thorough):
         cells.append(dict(tls=tls, tlsmax=13, et=et, batch=j % 2, threads=4, role=("server", "client")[(j + seed) % 2], sessions=1, dist=1,
                           permille=0, iocap=0, peerrcvbuf=8192, sndbuf=4096, rcvbuf=4096, iochunk=65536, fin="half", window=1 << 20,
                           hssends=2, bytes=(4 * 1024 * 1024 if thorough else 200 * 1024), rbytes=50000, pauses=400 if thorough else 100,
-                          mwq=1024, fault="none", cell=ci))
+                          mwq=1024, fault="none", cell=ci, cbsend=0))
         ci += 1
     # early-close cells: prefix rule + close reported exactly once
     faults = ("peer-rst", "peer-fin", "app-close", "overflow")
@@ -57,16 +58,19 @@ def stream_cells(seed, thorough):
                                   iocap=0, peerrcvbuf=(8192, 16384)[r % 2], sndbuf=4096, rcvbuf=4096, iochunk=65536, fin="half",
                                   window=(65536, 262144)[r % 2], hssends=(2, 0)[r % 2],
                                   bytes=(4 * 1024 * 1024 if thorough else 300 * 1024), rbytes=(200000 if thorough else 20000),
-                                  pauses=200 if thorough else 60, mwq=8 if fault == "overflow" else 1024, fault=fault, cell=ci))
+                                  pauses=200 if thorough else 60, mwq=8 if fault == "overflow" else 1024, fault=fault, cell=ci,
+                                  cbsend=(r // 2) % 2))
                 ci += 1
     return cells
 
 
 def cell_args(c, seed, tmp, stallms, watchdogms):
     a = ["--mode", "stream", "--seed", seed, "--tmp", tmp, "--stallms", stallms, "--watchdogms", watchdogms]
+    if c.get("cbsend"):
+        c = dict(c, window=min(c["window"], 65536), iochunk=min(c["iochunk"], 2048))  # workers paced by the peer, so they are still sending while onData fires; small read chunks give many callbacks
     for k in ("tls", "tlsmax", "et", "batch", "threads", "role", "sessions", "dist", "permille", "iocap", "peerrcvbuf", "sndbuf", "rcvbuf",
-              "iochunk", "fin", "window", "hssends", "bytes", "rbytes", "pauses", "mwq", "fault", "cell"):
-        a += ["--" + k, c[k]]
+              "iochunk", "fin", "window", "hssends", "bytes", "rbytes", "pauses", "mwq", "fault", "cell", "cbsend"):
+        a += ["--" + k, c.get(k, 0) if k == "cbsend" else c[k]]
     return a
 
 
@@ -205,7 +209,7 @@ def run(ctx):
     for rr in results:
         _settle(ctx, runner, rr, cell_timeout, state)   # isolated re-runs happen here, after the pool is idle
 
-    ctx.rule = ("stream cell = (transport, TLS version, role, epoll mode, batching, sender threads, sessions, payload-size distribution, "
+    ctx.rule = ("stream cell = (transport, TLS version, role, epoll mode, batching, sender threads, callback sender on the I/O thread?, sessions, payload-size distribution, "
                 "shim short-count rate / I/O cap, socket buffer sizes, ioReadChunk, early-send count, end-of-session variant, fault kind) with "
                 "self-describing payloads parsed at an independent raw/OpenSSL peer; cut case = (direction, transport, epoll mode, batching, "
                 "variant, call index, cut length) on a 3-payload 4096-byte script. distinct = hash of the cell coordinates plus "
@@ -222,7 +226,7 @@ def run(ctx):
     ctx.extra["stream_cells_per_flavor"] = len(cells)
     ctx.require_obs("cells", "short_writes", "eagain_on_send", "short_reads", "tls_cells_executed", "multi_threaded_sender_cells",
                     "tls_want_read", "tls_want_write", "sends_accepted_before_tls_handshake", "payloads_verified_at_peer",
-                    "reverse_bytes_on_data", "sessions_closed_early_prefix_checked", "engine_backpressure_closes",
+                    "reverse_bytes_on_data", "callback_sender_cells", "callback_sends_on_io_thread", "sessions_closed_early_prefix_checked", "engine_backpressure_closes",
                     "cut_cases_with_cut", "cut_cases_in_drain_loop", "cut_cases_with_cut_tx_tls", "cut_cases_with_cut_rx_tls",
                     "cut_cases_with_cut_rx_tcp")
     if thorough:
